@@ -1,12 +1,139 @@
-(* C08 (supervisor core) - INTERIM statement file: the full simulation theorem for mon_C08 is being
-   proved in Sup/RelC08.v; until it lands, this file states what is already machine-checked for every
-   accepted history of the Sup model: the observer's picture (on which the monitor holds_C08 is
-   evaluated) agrees with the model state. *)
+(* C08  Manual start/stop/restart semantics and at most one live instance per process
+   (level: PROOF of the "at most one live command per process name" clause, with two window
+   hypotheses; the other clauses of the property text are monitor/test level, see manifest.d/C08.json).
+   This file contains only the statements; every proof is `exact <lemma>` (Sup/RelC08.v, SpecC08.v, ExC08.v).
+
+   What the monitor mon_C08 (Sup/Monitors.v) checks, in plain words.  A history is the list of trace
+   points (thread, event) that the supervisor emitted.  The observer remembers per instance id its
+   process name (from the event "NewProcess(i, n)") and whether one of its commands is alive (set by a
+   successful Commander.Start = event ELaunch true of the goroutine that runs instance i, cleared by the
+   command's exit = ECmdExit i).  At EVERY successful launch of an instance i the monitor requires that
+   no OTHER instance id of the same process name has a command alive.  holds_C08 cs evs = true means:
+   this check never failed anywhere in evs.  [one_live] below (Sup/SpecC08.v) is the same statement
+   written over history positions with a three-field view of the history instead of the observer.
+
+   The window flags (sticky bits computed by the observer, known findings of known_findings.json):
+     w_dup    (F25)  an instance of a name was created (NewProcess) while an earlier instance of that name
+                     had not ended (its onProcessEnd status write had not happened), or two stop executions
+                     ran on one instance at the same time;
+     w_zombie (F38)  an instance of a name was created while an earlier instance of that name had ended
+                     but its goroutine had not yet reached inst_exit.
+   accept (init cs ord) evs = Some s  means: the history is one the Sup model can produce from the
+   initial state for the configuration cs (ord = ordered shutdown flag).
+   No well-formedness condition on the configuration is needed for C08. *)
 From Coq Require Import List ZArith NArith Bool.
 From PC.Base Require Import Assoc.
-From PC.Sup Require Import Model Monitors RelCore Agreement RelC02.
+From PC.Sup Require Import Model Monitors Sim RelCore Agreement RelC08 RelC08b SpecC08 ExC08.
+Import ListNotations.
 
+(* Every history of the model that did not go through the dup or the zombie window satisfies the
+   monitor: at no successful launch is a command of another instance of the same process alive.
+   For all configurations, all numbers of processes and API calls, all interleavings of the model. *)
+Theorem C08_main : forall cs ord evs s,
+  accept (init cs ord) evs = Some s ->
+  w_dup (final_obs cs evs) = false -> w_zombie (final_obs cs evs) = false ->
+  holds_C08 cs evs = true.
+Proof. exact C08_main_flags_lemma. Qed.
+Print Assumptions C08_main.
+
+(* the same with W_C08 o := w_dup o || w_zombie o, the form asked for *)
+Theorem C08_main_W : forall cs ord evs s,
+  accept (init cs ord) evs = Some s -> W_C08 (final_obs cs evs) = false -> holds_C08 cs evs = true.
+Proof. exact C08_main_lemma. Qed.
+Print Assumptions C08_main_W.
+
+(* what the check uses: histories that went through none of the seven known windows *)
+Theorem C08_no_windows : forall cs ord evs s,
+  accept (init cs ord) evs = Some s -> no_windows cs evs = true -> holds_C08 cs evs = true.
+Proof. exact C08_no_windows_lemma. Qed.
+Print Assumptions C08_no_windows.
+
+(* Second theorem: the zombie hypothesis can be traded for "no stop execution ever found its target
+   Pending" (no EStopPending trace point in the history; no_stop_pending is a decidable predicate on the
+   history).  This covers e.g. every RestartProcess of a RUNNING process, where the successor is
+   created while the old goroutine is still between its Completed write and inst_exit (w_zombie is set
+   there, harmlessly).  Relation: RelC08b.R8b = R8 + "an instance whose onProcessEnd was entered is
+   inside or past its own onProcessEnd" + "no thread is in the stop-of-a-Pending-process branch". *)
+Theorem C08_no_stop_pending : forall cs ord evs s,
+  accept (init cs ord) evs = Some s ->
+  w_dup (final_obs cs evs) = false -> no_stop_pending evs = true ->
+  holds_C08 cs evs = true.
+Proof. exact C08_no_stop_pending_lemma. Qed.
+Print Assumptions C08_no_stop_pending.
+
+(* both together: the strongest statement proved *)
+Theorem C08_combined : forall cs ord evs s,
+  accept (init cs ord) evs = Some s -> w_dup (final_obs cs evs) = false ->
+  w_zombie (final_obs cs evs) = false \/ no_stop_pending evs = true ->
+  holds_C08 cs evs = true.
+Proof. exact C08_combined_lemma. Qed.
+Print Assumptions C08_combined.
+
+(* declarative form: for every position of the history that is a successful launch by thread th,
+   running instance i of process ni, no other instance j of process ni has a command alive there.
+   lv_of pre is the view (thread -> instance, instance -> (name, command alive)) of the prefix. *)
+Theorem C08_one_live : forall cs ord evs s,
+  accept (init cs ord) evs = Some s -> w_dup (final_obs cs evs) = false ->
+  w_zombie (final_obs cs evs) = false \/ no_stop_pending evs = true ->
+  forall pre th post, evs = pre ++ (th, ELaunch true) :: post ->
+  forall i ni a, get th (lv_th (lv_of pre)) = Some i -> get i (lv_inst (lv_of pre)) = Some (ni, a) ->
+  forall j, j <> i -> get j (lv_inst (lv_of pre)) <> Some (ni, true).
+Proof. exact C08_one_live_combined_lemma. Qed.
+Print Assumptions C08_one_live.
+
+(* the monitor implies the declarative statement for ANY history (no model involved) *)
+Theorem C08_monitor_meaning : forall cs evs, holds_C08 cs evs = true -> one_live evs.
+Proof. exact holds_C08_one_live. Qed.
+Print Assumptions C08_monitor_meaning.
+
+(* Without a window hypothesis the statement is false of the model: two concurrent StartProcess calls
+   for one process both find the registry empty and both launch (finding F25; history ExC08.ex_dup). *)
+Theorem C08_refuted : exists cs ord evs s, accept (init cs ord) evs = Some s /\ holds_C08 cs evs = false.
+Proof. exact C08_refuted_lemma. Qed.
+Print Assumptions C08_refuted.
+
+(* Neither hypothesis of C08_main can be dropped: a failing accepted history that is outside the
+   zombie window (ex_dup), one outside the dup window (ex_zombie: RestartProcess on an instance that is
+   about to launch), and one on which w_zombie is the ONLY window flag set (ex_zombie_only). *)
+Theorem C08_dup_needed : exists cs ord evs s, accept (init cs ord) evs = Some s /\
+  w_zombie (final_obs cs evs) = false /\ holds_C08 cs evs = false.
+Proof. exact C08_dup_needed_lemma. Qed.
+Print Assumptions C08_dup_needed.
+
+Theorem C08_zombie_needed : exists cs ord evs s, accept (init cs ord) evs = Some s /\
+  w_dup (final_obs cs evs) = false /\ holds_C08 cs evs = false.
+Proof. exact C08_zombie_needed_lemma. Qed.
+Print Assumptions C08_zombie_needed.
+
+Theorem C08_zombie_only : exists cs ord evs s, accept (init cs ord) evs = Some s /\
+  windows_of (final_obs cs evs) = [true; false; false; false; false; false; false] /\ holds_C08 cs evs = false.
+Proof. exact C08_zombie_only_lemma. Qed.
+Print Assumptions C08_zombie_only.
+
+(* (kept from the interim statement file) every accepted history keeps the observer's picture, on which
+   the monitor is evaluated, in agreement with the model state *)
 Theorem C08_observer_agrees_with_model : forall cs ord evs s,
   accept (init cs ord) evs = Some s -> Rc cs s (final_obs cs evs).
 Proof. exact sup_agreement. Qed.
 Print Assumptions C08_observer_agrees_with_model.
+
+(* non-vacuity of C08_no_stop_pending where C08_main does not apply: a RestartProcess of a running
+   process whose successor is created inside the zombie window (44 events) *)
+Example C08_nonvacuous_restart :
+  length ex_restart = 44%nat /\
+  (exists s, accept (init cs_plain false) ex_restart = Some s) /\
+  w_dup (final_obs cs_plain ex_restart) = false /\ w_zombie (final_obs cs_plain ex_restart) = true /\
+  no_stop_pending ex_restart = true /\ holds_C08 cs_plain ex_restart = true.
+Proof. exact ex_restart_ok. Qed.
+
+(* non-vacuity: a 92-event sequential history (Run; StartProcess on a running process fails; StopProcess;
+   the instance ends; StartProcess launches a new instance; RestartProcess stops it, waits, launches the
+   next; StopProcess of an unknown name fails) is accepted by the model, sets no window flag at all,
+   and satisfies the monitor - so the hypotheses of C08_main are satisfiable by non-trivial histories. *)
+Example C08_nonvacuous :
+  length ex_seq = 92%nat /\
+  (exists s, accept (init cs_plain false) ex_seq = Some s) /\
+  W_C08 (final_obs cs_plain ex_seq) = false /\
+  any_window (final_obs cs_plain ex_seq) = false /\
+  holds_C08 cs_plain ex_seq = true.
+Proof. exact ex_seq_ok. Qed.
